@@ -63,6 +63,18 @@ func (x *Exec) initGuards() {
 	x.muted = mute
 }
 
+func bindParams(vars map[string]Value, fn *ssa.Function, c *Contract, args []Value) {
+	for i, p := range fn.Params {
+		if i >= len(args) {
+			break
+		}
+		vars[p.Name()] = args[i]
+		if c != nil && i < len(c.Aliases) && c.Aliases[i] != "" {
+			vars[c.Aliases[i]] = args[i]
+		}
+	}
+}
+
 // VerifyFunc symbolically executes fn against contract c and returns the
 // obligations (not yet discharged).
 func VerifyFunc(w *World, rel string, c *Contract, fn *ssa.Function) *FuncReport {
@@ -119,9 +131,7 @@ func VerifyFunc(w *World, rel string, c *Contract, fn *ssa.Function) *FuncReport
 			x.npathsDone++
 			env := x.envFor(st2, -1, false)
 			env.pkg = x.pkg
-			for i, p := range fn.Params {
-				env.vars[p.Name()] = args[i]
-			}
+			bindParams(env.vars, fn, c, args)
 			// a closure verified on its own: its free variables by name
 			for i, fv := range fn.FreeVars {
 				if i < len(bind) && bind[i].Loc != nil {
@@ -144,9 +154,7 @@ func VerifyFunc(w *World, rel string, c *Contract, fn *ssa.Function) *FuncReport
 			x.npathsDone++
 			env := x.envFor(st2, -1, false)
 			env.pkg = x.pkg
-			for i, p := range fn.Params {
-				env.vars[p.Name()] = args[i]
-			}
+			bindParams(env.vars, fn, c, args)
 			if st2.panicking != nil {
 				env.vars["panicval"] = *st2.panicking
 			}
@@ -295,9 +303,7 @@ func (x *Exec) checkFrame(st *State, c *Contract, fn *ssa.Function, args []Value
 	env := x.envFor(st, -1, false)
 	env.pkg = x.pkg
 	env.heap, env.epoch, env.now = map[string]Term{}, 0, x.decls.Const("now@entry", "Int")
-	for i, p := range fn.Params {
-		env.vars[p.Name()] = args[i]
-	}
+	bindParams(env.vars, fn, c, args)
 	for _, m := range c.Modifies {
 		m = strings.TrimSpace(m)
 		if m == "heap" {
